@@ -58,3 +58,7 @@ Inductive snap_pos := SnapBefore | SnapAfter | SnapUnknown.
 (* ProcessExecutor._start_processes, launching one future: is it registered in the running table before it is removed from the
    pending table (at every line boundary it is in at least one of them), or removed first? *)
 Inductive launch_order := RegisterThenRemove | RemoveThenRegister | LaunchUnknown.
+
+(* serialization.Serializer.serialize_value: is a parameter dict that would read back as a task / enum member (a marker key with
+   a truthy value) wrapped as {"_is_dict": true, "items": ..}, or written as it is? *)
+Inductive ser_mode := SerWrapsDicts | SerPlainDicts | SerUnknown.
